@@ -276,7 +276,11 @@ impl ChainItemKind {
                 return (
                     ChainItemKind::Parent {
                         expr: expr.clone(),
-                        parens: is_method_call_receiver && should_add_parens(expr, context),
+                        // A literal that ends in a dot needs them before a field access or
+                        // `.await` as well: `1..0` is a range.
+                        parens: (is_method_call_receiver
+                            || matches!(expr.kind, ast::ExprKind::Lit(..)))
+                            && should_add_parens(expr, context),
                     },
                     expr.span,
                 );
